@@ -291,7 +291,8 @@ def plan(tier):
     # the script as a background job (spawn_job) next to a queued follower
     for s in ('infinite', 'timed', 'time-of-day'):
         for api in ('bg:stop_job', 'bg:stop_all', 'bgonly:stop_all', 'bgonly:stop_job'):
-            out.append((s, api, 0 if tier == 'quick' else 1, 1 if tier == 'quick' else 16, False, GATE_POINTS, WINDOW_AFTER_STOP))
+            deep = tier != 'quick' or (s, api) == ('infinite', 'bg:stop_all')     # stop-all racing the end of the queued job
+            out.append((s, api, 1 if deep else 0, 16 if deep else 1, False, GATE_POINTS, WINDOW_AFTER_STOP))
     if tier == 'thorough':
         out.append(('timed', 'stop_job', 2, 16, False, 24, 20))
         out.append(('time-of-day', 'stop_all', 2, 16, False, 24, 20))
